@@ -22,8 +22,8 @@ import (
 func init() {
 	Register(&Monitor{
 		ID: "C13",
-		Rule: "per case one session: a shared document (through the store or through ReadXml), a pool of separately compiled expressions that are reused many times, shared binding maps assigned CLI-style (two namespace environments; per call one of four function libraries: shared, none, unset, or one that adds g() and shadows string-length()/count()), and a pool of caller-held NodeSets (earlier results, reverse-ordered copies, sub-slices full[i:j] with spare capacity whose backing array holds sentinel cursors beyond len); a PRNG-determined history of Exec (from the root / inner nodes, with pooled NodeSets as variables used as union operands, filter primaries and function arguments), Unmarshal and re-BuildExpr operations; " +
-			"oracle after every operation: deep snapshot of the cursor tree through the public interface (identity, Pos, kind/name/value, list membership and order, Parent) equals the initial one; every pooled NodeSet's length, capacity and all cap elements are unchanged; the binding maps are unchanged; a reflection-based structural hash of every Grammar (BSR forest and lexer, maps order-insensitively, pointers with cycle detection) is unchanged (checked every 16 operations and at the end); every (expression, start node, bindings) triple is re-executed at random later points and must equal its first result (values; node identity and order; four in ten Exec operations repeat an earlier call exactly); custom functions resolve only in the calls that bind them; two BuildExpr of one string agree. distinct_nontrivial = distinct (operation kind, expression) pairs with a non-empty result",
+		Rule: "per case one session: a shared document (through the store or through ReadXml), a pool of separately compiled expressions that are reused many times, shared binding maps assigned CLI-style (two namespace environments; per call one of four function libraries: shared, none, unset, or one that adds g() and shadows string-length()/count()), and a pool of caller-held NodeSets (earlier results, reverse-ordered copies, sub-slices full[i:j] with spare capacity whose backing array holds sentinel cursors beyond len); a PRNG-determined history of Exec (from the root / inner nodes, with pooled NodeSets as variables and as the return value of a custom function, used as union operands, filter primaries, path heads and function arguments), Unmarshal and re-BuildExpr operations; " +
+			"oracle after every operation: deep snapshot of the cursor tree through the public interface (identity, Pos, kind/name/value, list membership and order, Parent) equals the initial one; every pooled NodeSet's length, capacity and all cap elements are unchanged; the binding maps are unchanged; a reflection-based structural hash of every Grammar (BSR forest and lexer, maps order-insensitively, pointers with cycle detection) is unchanged (checked every 16 operations and at the end); every (expression, start node, bindings) triple is re-executed at random later points and must equal its first result (values; node identity and order; four in ten Exec operations repeat an earlier call exactly); custom functions resolve only in the calls that bind them; two BuildExpr of one string agree, also when the second compilation happens sessions later in the same process (after thousands of other BuildExpr calls), judged on a fixed document. distinct_nontrivial = distinct (operation kind, expression) pairs with a non-empty result",
 		NCases: func(tier string) int { return map[string]int{"quick": 800, "thorough": 25000}[tier] },
 		Case:   c13Case,
 	})
@@ -178,7 +178,43 @@ func resultKey(res xsel.Result, err error) string {
 	return fmt.Sprintf("%T", res)
 }
 
+// c13Old remembers, per process, expressions compiled in earlier sessions together with their
+// result on one fixed document: compiling the same string again much later — after thousands of
+// other expressions went through BuildExpr — must give an equivalent query.
+var c13Old struct {
+	doc   xsel.Cursor
+	items []c13OldItem
+}
+
+type c13OldItem struct {
+	src, key string
+	session  int
+}
+
+func c13FixedDoc() xsel.Cursor {
+	if c13Old.doc == nil {
+		c13Old.doc, _ = xsel.ReadXml(strings.NewReader(`<r xmlns:p="urn:a" xmlns:q="urn:b" id="1"><a id="2">x<b>2</b></a><p:a k="v">3</p:a><a> 4 </a><!--c--><?pi d?><q:c><a>5</a></q:c></r>`))
+	}
+	return c13Old.doc
+}
+
 func c13Case(r *evid.Run, tier string, idx int, g *rng.R) {
+	if fixed := c13FixedDoc(); fixed != nil && len(c13Old.items) > 0 {
+		for k := 0; k < 8; k++ {
+			it := c13Old.items[g.Intn(len(c13Old.items))]
+			gr, err := xsel.BuildExpr(it.src)
+			key := "BUILD-ERR"
+			if err == nil {
+				res, xerr := Exec(fixed, &gr, nsOpts(canonNS)...)
+				key = resultKey(res, xerr)
+			}
+			r.Eval(1)
+			r.Count("late_recompilations", 1)
+			if key != it.key {
+				r.Violate("rebuild/late", map[string]any{"case": idx, "what": fmt.Sprintf("BuildExpr(%q) compiled again in session %d gives %s on the fixed document; compiled in session %d it gave %s", it.src, idx, trunc(key), it.session, trunc(it.key))})
+			}
+		}
+	}
 	o := adoc.GenOpts{MinNodes: 8, MaxNodes: 45, NS: g.Intn(3), Misc: g.P(50), XMLSafe: true, NoAdjText: true}
 	d := adoc.Generate(g, o)
 	var m *bridge.Map
@@ -248,6 +284,11 @@ func c13Case(r *evid.Run, tier string, idx int, g *rng.R) {
 		xast.Var{Prefix: "q", Local: "v"},
 		xast.Abs(xast.DS(), xast.S("child", xast.Test{Kind: xast.TNSAny, Prefix: "p"})),
 		xast.Fn("count", xast.Abs(xast.DS(), xast.S("child", xast.Test{Kind: xast.TNSAny, Prefix: "q"}))),
+		// a custom function that hands out a caller-held node-set (the one bound to $a): used as filter primary, path head, union operand, argument
+		xast.Path{Head: xast.Call{Prefix: "p", Local: "nodes"}, HPred: []xast.Expr{xast.N(1)}}, xast.Path{Head: xast.Call{Prefix: "p", Local: "nodes"}, HPred: []xast.Expr{xast.Fn("last")}},
+		xast.Path{Head: xast.Paren{X: xast.Call{Prefix: "p", Local: "nodes"}}, HPred: []xast.Expr{xast.N(2)}, Steps: []xast.Step{xast.S("parent", xast.NodeT())}},
+		xast.Fn("count", xast.Call{Prefix: "p", Local: "nodes"}), xast.Binary{Op: "|", L: xast.Call{Prefix: "p", Local: "nodes"}, R: vb},
+		xast.Path{Head: xast.Call{Prefix: "p", Local: "nodes"}, Steps: []xast.Step{xast.DS(), xast.S("child", xast.AnyT())}},
 		// names that only some calls bind as custom functions (g) or shadow (string-length, count)
 		xast.Fn("g"), xast.Fn("string-length", xast.Lit{S: "abc"}), xast.Fn("count", xast.Abs(xast.DS(), xast.S("child", xast.NodeT()))),
 		xast.Fn("concat", xast.Fn("string-length", xast.Lit{S: "abcd"}), xast.Lit{S: "/"}, xast.Fn("count", xast.Abs(xast.S("child", xast.NodeT())))),
@@ -309,6 +350,10 @@ func c13Case(r *evid.Run, tier string, idx int, g *rng.R) {
 		sharedVars[xsel.XmlName{Space: uri, Local: "v"}] = xsel.String("var@" + uri)
 		sharedFns[xsel.XmlName{Space: uri, Local: "f"}] = func(ctx xsel.Context, args ...xsel.Result) (xsel.Result, error) {
 			return xsel.String("fn@" + uri), nil
+		}
+		sharedFns[xsel.XmlName{Space: uri, Local: "nodes"}] = func(ctx xsel.Context, args ...xsel.Result) (xsel.Result, error) {
+			// the caller's own slice, not a copy
+			return sharedVars[xsel.XmlName{Local: "a"}], nil
 		}
 	}
 	// function bindings differ between calls: the shared library, none at all, or a library that
@@ -512,6 +557,22 @@ func c13Case(r *evid.Run, tier string, idx int, g *rng.R) {
 					viol("grammar-mutated", fmt.Sprintf("compiled expression %s changed structurally after %s", p.src, desc), hist)
 					p.h = h
 				}
+			}
+		}
+	}
+	// churn: many further distinct expressions go through BuildExpr in this process
+	for k := 0; k < 60; k++ {
+		xsel.BuildExpr(fmt.Sprintf("count(//a[%d]) + %d", 1+k%3, idx*100+k))
+	}
+	r.Count("churn_compilations", 60)
+	if fixed := c13FixedDoc(); fixed != nil {
+		for k := 0; k < 6 && k < len(exprs); k++ {
+			p := exprs[g.Intn(len(exprs))]
+			res, xerr := Exec(fixed, &p.g, nsOpts(canonNS)...)
+			if len(c13Old.items) < 4096 {
+				c13Old.items = append(c13Old.items, c13OldItem{p.src, resultKey(res, xerr), idx})
+			} else {
+				c13Old.items[g.Intn(len(c13Old.items))] = c13OldItem{p.src, resultKey(res, xerr), idx}
 			}
 		}
 	}
